@@ -5,7 +5,9 @@ import os, re, shutil, subprocess, threading, time
 from bbox import Sandbox, Rng, blake3_hex, hexs, CLI_BIN, HOST, VERIF
 import bb_hub as H
 
-NAMES = ["a.txt", "b", "d/c.txt", "d/e/f", "sp ace", "m.txt", "n/new.txt", "z.txt", ".copiaignore", ".copia-notes/todo.md", "x.conflict-note"]
+NAMES = ["a.txt", "b", "d/c.txt", "d/e/f", "sp ace", "m.txt", "n/new.txt", "z.txt", ".copiaignore", ".copia-notes/todo.md", "x.conflict-note",
+         # a directory next to siblings whose names extend its name by a byte below '/': component-wise (Path) and byte-wise (String) orders differ
+         "d.md", "d-old", "n.txt", "d/e.x"]
 CONTENTS = [b"one\n", b"two two\n", b"", b"3" * 5000, b"\x00\xff", b"six" * 100000,
             # sizes that are exact multiples of the hub's 256 KiB staging chunk, ending in (or consisting of) zeros: sparse-file / hole tricks
             bytes(range(256)) * 1024 + b"\x00" * 262144, b"\x00" * 524288, b"\x00" * 262144 + b"tail"]
